@@ -4,6 +4,15 @@ _NOTE = ('Trusted: CPython ast, mypy-inferred receiver types (callee resolution)
          'modules. Decides only the structural clauses named; runtime values, timing and histories are not decided.')
 
 CLAIMS = {
+    'C14': {
+        'text': 'Every command handler (about 45, with the callback it schedules, the handlers it delegates to and the helpers '
+                'that answer for it) gives exactly one terminal answer on every CFG path, exceptions included; RIB effects come '
+                'after a non-empty parse result; the neighbour set of every effect derives from the selector-matched peers; '
+                'an empty selector match is not widened to all peers; every selector term is tested; both line readers keep '
+                'the unterminated tail and the queues are FIFO. Not decided: arbitrary chunkings at run time, group mode semantics.',
+        'note': _NOTE,
+        'technique': 'path-sensitive count lattice {0,1,>=2} over handler CFGs with interprocedural summaries, def-use provenance of the peer set, sibling shape checks',
+    },
     'C04': {
         'text': 'The two announce indexes of the outgoing RIB stay coherent (the previous occupant of a route index is removed '
                 'from its own attribute group, keyed through _new_nlri); every queueing path reaches the matching cache '
